@@ -79,6 +79,10 @@ def gen_cases(tier, seed):
             names = [100 * x + 10 for x in range(n)]            # multi-digit ints
         if i % 7 == 5:
             names = ["n%d_%s" % (x, "ab"[x % 2]) for x in range(n)]
+        if i % 7 == 1:          # integers beyond 2**53 (not representable as floats) and beyond 2**63
+            names = [2 ** 53 + 1, 2 ** 53 + 3, 10 ** 18 + 1, 2 ** 63 - 1, 2 ** 64 + 5, 5][:n]
+        if i % 7 == 6:          # strings that read as floats / other literals but not as integers
+            names = ["1e3", "2e1", "inf", "1.0", "0x10", "nan"][:n]
         yield {"kind": "file", "rankings": D.rename(d, names), "namekind": kind}
     # totality ------------------------------------------------------------------------------------------------------
     lmax = 5 if tier == "quick" else 7
